@@ -12,14 +12,19 @@
 (***************************************************************************)
 EXTENDS Field, FiniteSets, Json, TLC
 
-CONSTANTS MaxN, SharedWeight     \* SharedWeight = TRUE: the (wrong) design with one weight for all instances
+CONSTANTS MaxN, SharedWeight,    \* SharedWeight = TRUE: the (wrong) design with one weight for all instances
+          AffineWeight           \* AffineWeight = TRUE: the (wrong) design with weights a + b * position from two draws
 
 VARIABLES pat, sizes, done
 bvars == << pat, sizes, done >>
 
-Kinds == {"good", "tamper", "badwit", "plus", "minus"}
+\* "t1", "t2", "t3": the same proof with its final scalar shifted by +d, -2d, +d (a second difference: it cancels under every weighting that
+\* is affine in the position, as the pair cancels under a constant one)
+Kinds == {"good", "tamper", "badwit", "plus", "minus", "t1", "t2", "t3"}
 Count(s, kd) == Cardinality({i \in 1 .. Len(s) : s[i] = kd})
-WellFormed(s) == Count(s, "plus") = Count(s, "minus") /\ Count(s, "plus") <= 1
+WellFormed(s) == /\ Count(s, "plus") = Count(s, "minus") /\ Count(s, "plus") <= 1
+                 /\ Count(s, "t1") = Count(s, "t2") /\ Count(s, "t2") = Count(s, "t3") /\ Count(s, "t1") <= 1
+                 /\ Count(s, "t1") = 1 => \E i \in 1 .. Len(s) - 2 : s[i] = "t1" /\ s[i + 1] = "t2" /\ s[i + 2] = "t3"
 
 BInit == /\ \E n \in 1 .. MaxN : pat \in {s \in [1 .. n -> Kinds] : WellFormed(s)}
          /\ sizes = [i \in 1 .. Len(pat) |-> << 1, 3, 0, 5, 2, 8 >>[((i * 2 + Len(pat)) % 6) + 1]]
@@ -31,7 +36,10 @@ N == Len(pat)
 \* abstract residuals: unrelated invalid members get unrelated non-zero residuals; the pair gets +d, -d
 Res(i) == CASE pat[i] = "good" -> 0 [] pat[i] = "tamper" -> 1 + (i % 5) [] pat[i] = "badwit" -> 2 + (i % 4)
             [] pat[i] = "plus" -> 3 [] pat[i] = "minus" -> P - 3
-Weights == IF SharedWeight THEN {[i \in 1 .. N |-> a] : a \in F} ELSE [1 .. N -> F]
+            [] pat[i] = "t1" -> 3 [] pat[i] = "t2" -> P - 6 [] pat[i] = "t3" -> 3
+Weights == IF SharedWeight THEN {[i \in 1 .. N |-> a] : a \in F}
+           ELSE IF AffineWeight THEN {[i \in 1 .. N |-> Fadd(a, Fmul(b, i % P))] : a \in F, b \in F}
+           ELSE [1 .. N -> F]
 Accept(al) == SumSeq([i \in 1 .. N |-> Fmul(al[i], Res(i))]) = 0
 AllGood == \A i \in 1 .. N : pat[i] = "good"
 
